@@ -349,6 +349,13 @@ pub fn false_plans(b: &Base, rng: &mut (impl RngCore + CryptoRng), a: i64, other
         let mut p = derive(&t, "token-sigma2-tampered");
         p.w.token = (b.token.0, (G1Projective::from(b.token.1) + G1Projective::from(b.token.0)).to_affine());
         v.push(p);
+        // "token" made of curve points outside the prime-order group (sigma2 = identity): pairs to 1 with
+        // everything; such bytes are refused when the proof is decoded
+        if let Some(cof) = Option::<G1Affine>::from(G1Affine::from_compressed_unchecked(&crate::wire::g1_cofactor_point(&mut *rng))) {
+            let mut p = derive(&t, "token-outside-the-group");
+            p.w.token = (cof, G1Affine::identity());
+            v.push(p);
+        }
         let mut p = derive(&t, "token-random");
         p.w.token = (crate::wire::rand_g1(&mut *rng), crate::wire::rand_g1(&mut *rng));
         v.push(p);
@@ -580,6 +587,8 @@ pub struct PayJudge<'a> {
     pub prop: &'static str,
     /// public nonces under which this base's pay token has been accepted so far
     pub accepted_nonces: std::cell::RefCell<std::collections::BTreeSet<[u8; 32]>>,
+    /// blinded pay token of a true statement the merchant accepted earlier (for the replay strategy)
+    pub accepted_blinded: std::cell::RefCell<Option<(G1Projective, G1Projective)>>,
 }
 
 impl<'a> PayJudge<'a> {
@@ -642,6 +651,14 @@ impl<'a> PayJudge<'a> {
             };
             (foreign_completed, old_completed)
         });
+        if plan.name == "token-outside-the-group" {
+            if let Err(e) = &out {
+                if e.contains("does not decode") {
+                    c.count("forged_proof_refused_at_decode", 1);
+                    return None;
+                }
+            }
+        }
         let (out, completion) = c.ok(out)?;
         c.count("hook_records_read", 1);
         if is_draft {
@@ -677,6 +694,7 @@ impl<'a> PayJudge<'a> {
                 let csig = c.ok(unblind_bytes(sig_b, &pr.close.bf))?;
                 let on_close = ps_verify_ref(&b.m.pk, &csig.0, &csig.1, &pr.close.msg);
                 if t.truth {
+                    *self.accepted_blinded.borrow_mut() = Some((pr.token.s1, pr.token.s2));
                     c.count("accepted_true_statements", 1);
                     if !on_close {
                         c.violation(&format!("C02 honest-closing-signature-invalid {}", label), json!({"label": label}));
@@ -781,6 +799,19 @@ pub fn run_plan(c: &mut Ctx, j: &PayJudge, rng: &mut (impl RngCore + CryptoRng),
             }
         }
     }
+    // S5 the byte-identical blinded token of a proof the merchant accepted before, around this plan's
+    // (different) commitment: whatever the merchant remembers about those bytes, the link is false
+    let stored = *j.accepted_blinded.borrow();
+    if let Some((s1, s2)) = stored {
+        let mut pr = PayProver::commit(rng, b.m, &p.w);
+        pr.token.s1 = s1;
+        pr.token.s2 = s2;
+        if let Some((_, c0)) = j.submit(c, rng, "draft", &pr, None, &Scalar::zero(), p, &p.nonce_pub, p.amount_pub) {
+            c.distinct(&format!("S5/{}", cls));
+            let r = pr.responses(&c0);
+            let _ = j.submit(c, rng, &format!("strategy=replayed-blinded-token variant={}", p.name), &pr, Some(&r), &c0, p, &p.nonce_pub, p.amount_pub);
+        }
+    }
     // S4b post-challenge choice of the revealed commitment scalars
     let nonce_dev = p.w.old_state[1] != p.nonce_pub;
     let tag_dev = p.w.new_close[1] != close_tag_ref();
@@ -873,7 +904,7 @@ pub fn run(c: &mut Ctx) {
                     let mut rng = c.rng(&name);
                     let mut context = vec![0u8; 8];
                     rng.fill_bytes(&mut context);
-                    let j = PayJudge { b: &b, context, prop: "C02", accepted_nonces: Default::default() };
+                    let j = PayJudge { b: &b, context, prop: "C02", accepted_nonces: Default::default(), accepted_blinded: Default::default() };
                     // positive control
                     {
                         let p = true_plan(&b, &mut rng, a);
